@@ -1332,6 +1332,22 @@ func runHistory(run *emit.Run, hs *histSpec, tag string) (res *histResult, fatal
 							violate("C17:wrong-caller-identity", fmt.Sprintf("execute of %q requested by %x (%s): the call names sender %x, contract %x", op.ID, caller, op.Path, []byte(it.call.SenderAddress), []byte(it.call.ContractAddress)))
 						}
 					}
+					// the contract path end to end: the call carries exactly the bytes the contract supplied, then its address
+					if op.Path == "wasm" || op.Path == "legacy" {
+						shape := "call-data"
+						if t := strings.TrimSpace(string(in)); json.Valid(in) && len(t) > 0 {
+							shape = "json"
+							if strings.Contains(t, "hexPayload") {
+								shape = "payload-document"
+							}
+						} else if _, ok := strictHex(string(in)); ok && len(in) > 0 {
+							shape = "hex-string"
+						}
+						run.Count("contract-bytes", op.Path+"/"+shape)
+						if string(it.call.Payload) != string(append(append([]byte{}, in...), leftPad32(contract)...)) {
+							violate("C17:contract-bytes-reinterpreted", fmt.Sprintf("contract %x ran %q through %s with the %d bytes %q: the call carries %x, not those bytes followed by the contract's padded address", contract, op.ID, op.Path, len(in), string(in), it.call.Payload))
+						}
+					}
 					base := []byte(js.Payload)
 					usedSupplied := false
 					if !suppliedNil && js.Mod {
@@ -1560,6 +1576,22 @@ func genHistory(r *rand.Rand, hostile bool) *histSpec {
 			return base + "-" + w + "-" + base
 		}
 	}
+	// the payload BYTES a contract hands over: mostly arbitrary call data; sometimes bytes that look like something the
+	// chain itself understands -- a payload document, a job definition, a hex string, JSON of other shapes, quotes, NULs
+	lookalikes := []string{`{"hexPayload":"deadbeef"}`, `{"hexPayload":"0xdeadbeef"}`, `{"hexPayload":""}`, `{"hexPayload":"abc","address":"0x9999999999999999999999999999999999999999"}`,
+		`{"hexPayload":"c0de","abi":"0xffff","x":[1,{"y":null}]}`, ` {"hexPayload":"01"} `, `{"hexPayload":"zz"}`, `{"hexPayload":null}`, `{"hexPayload":12}`, `{"HexPayload":"02"}`, `{"hexpayload":"03"}`, `{}`, `[]`, `[{"hexPayload":"04"}]`, `null`, `"deadbeef"`, `"`,
+		`{"abi":"0xabcd","address":"0x1111111111111111111111111111111111111111"}`, `{"job_id":"j1","payload":"AQI="}`, "0xdeadbeef", "0x", "0xabc", "abc", "deadbeef", "\x00", "\x00\x00{\"hexPayload\":\"05\"}", "{\"hexPayload\":\"06\"}\x00", "\"}", "\\"}
+	contractBytes := func(allowEmpty bool) string {
+		switch k := r.Intn(10); {
+		case k < 3:
+			return lookalikes[r.Intn(len(lookalikes))]
+		case k == 3:
+			return payPool[r.Intn(len(payPool)-1)]
+		case k == 4 && allowEmpty:
+			return ""
+		}
+		return string(randAddr(r, 1+r.Intn(40)))
+	}
 	// what a contract's message says about its sender
 	claim := func(contract []byte) string {
 		switch r.Intn(8) {
@@ -1691,7 +1723,7 @@ func genHistory(r *rand.Rand, hostile bool) *histSpec {
 			op.Path = "wasm"
 			op.Contract = hex.EncodeToString(contracts[r.Intn(len(contracts))])
 			op.Claimed = claim(unhex(op.Contract))
-			op.In = string(randAddr(r, 1+r.Intn(40)))
+			op.In = contractBytes(false)
 			if r.Intn(10) == 0 {
 				op.In = ""
 			}
@@ -1702,7 +1734,7 @@ func genHistory(r *rand.Rand, hostile bool) *histSpec {
 			op.Path = "legacy"
 			op.Contract = hex.EncodeToString(contracts[r.Intn(len(contracts))])
 			op.Claimed = claim(unhex(op.Contract))
-			op.In = string(randAddr(r, r.Intn(40)))
+			op.In = contractBytes(true)
 			if r.Intn(14) == 0 {
 				op.ID = ""
 			}
@@ -1842,6 +1874,7 @@ func TestCorr(t *testing.T) {
 		"Transaction messages pass ValidateBasic and the VerifyAuthorisedSignatureDecorator first (signed by the creator | by another account with / without a fee grant of the creator; a creator without account); " +
 		"contract messages go as JSON through the libwasm router and name a sender of their own choice (absent | junk | own address | another contract | an account); " +
 		"simulate (a job created, looked up and run on a branch that is discarded, then the same id created for real with other content by somebody else and run); " +
+		"contract payload BYTES that look like payload documents ({\"hexPayload\":...} with extra members, arrays, null), job definitions, hex strings (0x..., odd length), JSON of other shapes, quotes, NULs, empty; " +
 		"job ids built from other ids and the module's key vocabulary (-runs-<id>, s-runs-<id>, -<word>-<id> created before <id> runs, prefixes / extensions of ids, jobs<id>, generated-ids-<id>, one-character ids); " +
 		"after every operation the raw job-record key space of the store is diffed (nothing may change or go; only the job created by this operation may appear) and every lookup is compared with the store; " +
 		"job ids of creates and lookups include near misses of existing ids (other case, blanks, tab, newline, zero-width and no-break space, full-width first character). 1 history in 6 is drawn from the hostile pools only. " +
